@@ -21,10 +21,14 @@ var vttNeedsDocs = []struct{ name, doc string }{
 	{"vttNeedStyleBrace", "\xef\xbb\xbfWEBVTT - some title\nSTYLE\n::cue { color: red\n  \n\n\n \n42\n1:02:03.004 --> 123:00:00.500\nsecond\n"},
 	{"vttNeedDupRegion", "\xef\xbb\xbfWEBVTT - some title\nRegion: id=bill\nRegion: id=bill\n\n \n42\n1:02:03.004 --> 123:00:00.500\nsecond\n"},
 	{"vttNeedRegionUndefined", "\xef\xbb\xbfWEBVTT - some title\nNOTE a comment\nmore\n\t\ncue-1\n00:01.000\t-->0000:00:02.500 vertical:rl\t region:fred\talign:start  align:end\n<v Bob><c.red.big>Hello </c><00:00:01.500>world\nsecond\n"},
+	// C02_write_rendering_empty_region_id: a setting word with nothing after the colon (the canonical rendering of a cue
+	// that refers to the region whose identifier is empty), and an empty align value
+	{"vttEmptyRegionId", "WEBVTT\n\nRegion: id=\n\n1\n00:00:00.000 --> 00:00:01.000 region:\nsecond\n"},
+	{"vttEmptySettingValue", "WEBVTT\n\n1\n00:00:00.000 --> 00:00:01.000 align: size:50%\nsecond\n"},
 }
 
 func suiteVttNeeds(R *runner, r *rng) {
-	R.rule("vtt.needs: the worked instance of C02_read_rendered and the six documents of the C02_read_rendered_needs_* counter-examples, each with LF / CR LF / CR: extracted reader model vs ReadFromWebVTT; worked instance: reader vs denotation (identifiers 0 / 42 / 0, times to the ms incl. 123 h, comments, region fred, vertical rl, align end (repeated key: last wins), size 50%, line counts 2 / 1 / 0)")
+	R.rule("vtt.needs: the worked instance of C02_read_rendered and the six documents of the C02_read_rendered_needs_* counter-examples, the document of C02_write_rendering_empty_region_id and one with an empty setting value, each with LF / CR LF / CR: extracted reader model vs ReadFromWebVTT; worked instance: reader vs denotation (identifiers 0 / 42 / 0, times to the ms incl. 123 h, comments, region fred, vertical rl, align end (repeated key: last wins), size 50%, line counts 2 / 1 / 0)")
 	for _, d := range vttNeedsDocs {
 		for _, eol := range []string{"\n", "\r\n", "\r"} {
 			doc := strings.ReplaceAll(d.doc, "\n", eol)
